@@ -27,6 +27,12 @@ CHECKS = {
  "C19": ("runtime monitor: reversible multi-tile encode->decode round trip oracle over executed tile grids (every grid shape 1..8 x 1..8 with odd and even tile sizes, partial last tiles, tiles smaller than a code-block, rate allocation with final lossless layer)",
          "Held on every executed tile grid, geometry and configuration; the witness of a violation names the tile and in-tile position of the first wrong sample.",
          "Self round trip through jpeg2000.Encoder / jpeg2000.Decoder.", "3/C19"),
+ "C05": ("runtime monitor: registry .90/.92 Encode->Decode frame-equality oracle over executed (frame description, parameter object) pairs; domain guard evaluated on the generated parameter values",
+         "Held on every executed in-domain case: typed, generic and nil parameter objects over the Rate / RateLevels / TargetRatio / NumLayers / PCRD / NumLevels / progression / MCT space, every width 1..40 against heights 1..80 in the thorough tier, sizes to 600.",
+         "Self round trip through the registered codec instances and the harness PixelData.", "3/C05"),
+ "C06": ("runtime monitor: registry .201/.202 Encode->Decode frame-equality oracle over executed frames and block/level parameters, plus complete execution of the finite set of third-party lossless fixtures against their raw sources",
+         "Held on every executed frame; the 14 third-party OpenJPH/fo-dicom lossless codestreams are decoded and compared with their input.raw on every run (finite set, exhaustive).",
+         "Self round trip; fixtures and manifest under /repo/test-data/htj2k/interop are trusted as labelled.", "3/C06"),
 }
 
 NOT_YET = {
